@@ -390,6 +390,18 @@ func (n *Assignment) String() string {
 		s.WriteString(" /= ")
 	case AssignmentModulo:
 		s.WriteString(" %= ")
+	case AssignmentAnd:
+		s.WriteString(" &= ")
+	case AssignmentOr:
+		s.WriteString(" |= ")
+	case AssignmentXor:
+		s.WriteString(" ^= ")
+	case AssignmentAndNot:
+		s.WriteString(" &^= ")
+	case AssignmentLeftShift:
+		s.WriteString(" <<= ")
+	case AssignmentRightShift:
+		s.WriteString(" >>= ")
 	case AssignmentIncrement:
 		s.WriteString("++")
 	case AssignmentDecrement:
